@@ -46,6 +46,9 @@ _add(_c("usn_orth", "USN", [2, 2], [3, 4, 3], 1, "lsn", dict(orthogonal=True), f
 _add(_c("lsn_orth_rev", "LSN", [2, 2], [3, 4, 3], 1, "lsn", dict(orthogonal=True), fpol="quad", psi_sign=-1.0))
 _add(_c("lsn_nonorth", "LSN", [2, 2], [3, 4, 3], 1, "lsn", dict(orthogonal=False), fpol="quad"))
 _add(_c("lsn_nonorth_rev", "LSN", [2, 2], [3, 4, 3], 1, "lsn", dict(orthogonal=False), fpol="negquad", psi_sign=-1.0))
+# the optional cap of Bp at the y-faces next to the X-point (cap_Bp_ylow_xpoint; it acts for Bp > 0 only): C06 campaign only, since the
+# cap deliberately makes Bpxy_ylow differ from sqrt(Br^2 + Bz^2) there (seed C06_cap_after_dphidy)
+_add(_c("lsn_orth_rev_cap", "LSN", [2, 2], [3, 4, 3], 1, "lsn", dict(orthogonal=True, cap_Bp_ylow_xpoint=True), fpol="quad", psi_sign=-1.0))
 _add(_c("cdn_orth", "CDN", [2, 2], [3, 3, 3, 3, 3, 3], 1, "cdn", dict(orthogonal=True, **DN), fpol="quad", pressure="quad"))
 # gridded as a connected double null (nx_inter_sep = 0) although the X-points are slightly unbalanced (seed C01_leg_sep_contour_own_psi)
 _add(_c("cdn_orth_unbal", "CDN", [2, 2], [3, 3, 3, 3, 3, 3], 1, "cdn_unbal", dict(orthogonal=True, **DN), fpol="quad", pressure="quad"))
@@ -117,7 +120,11 @@ _add(_c("w_cdn_orth_sl_g2", "CDN", [2, 2], [3, 3, 3, 3, 3, 3], 2, "cdn", dict(or
 _add(_c("w_lsn_orth_cw_s3", "LSN", [2, 2], [3, 4, 3], 1, "lsn", dict(orthogonal=True), fpol="quad", wall_start=3))
 _add(_c("w_lsn_orth_acw_s1", "LSN", [2, 2], [3, 4, 3], 1, "lsn", dict(orthogonal=True), fpol="quad", wall_clockwise=True, wall_start=1))
 _add(_c("w_lsn_orth_sl_closed_s5", "LSN", [2, 2], [3, 4, 3], 1, "lsn", dict(orthogonal=True), fpol="quad", wall="slanted", wall_start=5, wall_closed=True))
-C11_WALLS_QUICK = ["w_lsn_nonorth_sl", "w_lsn_nonorth_sl_acw_g2", "w_lsn_nonorth_many_g0", "w_usn_nonorth_sl", "w_lsn_orth_many_acw",
+# a limiter on the outboard midplane reaching into the main-chamber SOL: cells of the core region's SOL part are cut by the wall, penalty_mask
+# must say so there too (seed C11_penalty_skip_inner_regions)
+_add(_c("w_lsn_orth_limiter", "LSN", [2, 2], [3, 10, 3], 1, "lsn", dict(orthogonal=True), fpol="quad", wall="limiter"))
+_add(_c("w_lsn_nonorth_limiter", "LSN", [2, 2], [3, 10, 3], 2, "lsn", dict(orthogonal=False), fpol="quad", wall="limiter", wall_clockwise=True))
+C11_WALLS_QUICK = ["w_lsn_orth_limiter", "w_lsn_nonorth_limiter", "w_lsn_nonorth_sl", "w_lsn_nonorth_sl_acw_g2", "w_lsn_nonorth_many_g0", "w_usn_nonorth_sl", "w_lsn_orth_many_acw",
                    "w_lsn_orth_cw_s3", "w_lsn_orth_acw_s1", "w_lsn_orth_sl_closed_s5"]
 C11_WALLS = C11_WALLS_QUICK + ["w_cdn_nonorth_sl", "w_cdn_orth_sl_g2"]
 
